@@ -230,9 +230,48 @@ def run_max_count(ctx, n):
     ctx.cov["max_count_cli_runs"] = runs
 
 
+def run_closure_sinks(ctx, n):
+    """grep_searcher::sinks::{UTF8, Lossy, Bytes}: a closure answering Ok(false) at its k-th call is never called
+    again, and the calls it received are the first k+1 matched lines of the uninterrupted search"""
+    rng = ctx.rng
+    cases, lines, meta = [], [], []
+    for _ in range(n):
+        c = sg.gen_case(rng)
+        c["cfg"]["line_number"] = True
+        c["cfg"]["passthru"] = False
+        which = rng.choice([0, 1, 1, 2])
+        if which != 0 and rng.random() < 0.7:
+            c["input"] = c["input"].replace(b"x", b"\xff")       # invalid UTF-8 inside lines (Lossy's other branch)
+        k = rng.randint(0, 3)
+        cases.append(c)
+        meta.append((which, k))
+        lines.append(vlib.vlist([sg.cfg_val(c["cfg"]), sg.matcher_val(c["needles"], c["confirm"], c["lt_mode"]),
+                                 vlib.vbytes(c["input"]), str(which), str(k)]))
+    co = vlib.code(1601, lines)
+    full = vlib.code(301, [sg.case_val(c) for c in cases])
+    for c, (which, k), line, o, f in zip(cases, meta, lines, co, full):
+        if not o.startswith("(") or not f.startswith("("):
+            continue
+        st, seen = parse_val(o)
+        evs = parse_val(f)[1]
+        matched = [(e[2][0] if e[2] else None, e[3]) for e in evs if e[0] == 1]
+        if which == 0 and any(b"\xff" in b for _, b in matched):
+            continue
+        exp = matched[:k + 1]
+        if which == 1:
+            exp = [(ln, b.decode("utf-8", "replace").encode("utf-8")) for ln, b in exp]
+        got = [(x[0], x[1]) for x in seen]
+        ctx.note_case(line, len(matched) > k + 1)
+        if got != exp:
+            ctx.violation("a closure sink (sinks::%s) that asked to stop at its call %d received other calls than the first %d "
+                          "matching lines" % (["UTF8", "Lossy", "Bytes"][which], k, k + 1),
+                          dict(kind=1601, line=line, case=sg.describe(c), which=which, k=k, got=repr(got), expected=repr(exp)))
+
+
 def run(ctx):
     rng = ctx.rng
     n = ctx.count(700)
+    run_closure_sinks(ctx, ctx.count(400))
     run_read_failures(ctx, n)
     run_max_count(ctx, ctx.count(60))
     cases = sg.regress_cases() + [sg.gen_case(rng) for _ in range(n)]
